@@ -14,7 +14,8 @@
     reaches the store) wakes every parked task (`notify_waiters`).  `taskTimeout h` / `taskStoreErr h`
     are tasks that complete with `HeaderTaskError::Timeout` / `StoreError` (120 s elapsed / store failure).
   * `stored`: height ↦ data hash of the headers the store holds.
-  Ghost: `announced` (every accepted notification) and `arrived` (every header a task delivered).
+  Ghost: `announced` (every accepted notification), `arrived` (every header a task delivered), `blocked`
+  (every peer ever named in a queued `BlockPeers`), `removed` (every peer removed from outside).
   `.expect("must exist if hash_pool exists")` in `get_pool` ↦ `PoolRes.panic`.
 -/
 import Lumina.Gen.C40
@@ -64,6 +65,8 @@ structure State where
   -- ghost
   announced : List (Nat × Nat × Nat)      -- (peer, hash, height) of every notification that was not ignored
   arrived : List (Nat × Nat)              -- (height, hash) of every header a task delivered
+  blocked : List Nat := []                -- every peer ever named in a queued `BlockPeers`
+  removed : List Nat := []                -- every peer `remove_peer` was called for from outside
   deriving Repr, DecidableEq
 
 /-- `PoolTracker::new` over an empty store (the initial task waits for the first header) -/
@@ -126,19 +129,19 @@ def vote (s : State) (peer hash height : Nat) : State :=
   | some (.candidates voted cands) =>
     if voted.contains peer then
       -- duplicate vote
-      { s with pendingEvents := s.pendingEvents ++ [.blockPeers [peer]] }
+      { s with pendingEvents := s.pendingEvents ++ [.blockPeers [peer]], blocked := s.blocked ++ [peer] }
     else
       { s with hashPools := alSet s.hashPools height (.candidates (voted ++ [peer]) (alPush cands hash peer)) }
   | some (.validated vh) =>
     if vh == hash then
       if ((alGet s.validatedPools hash).getD []).contains peer then
         -- duplicate vote (lumina fix "block a peer that announces twice for an already validated height")
-        { s with pendingEvents := s.pendingEvents ++ [.blockPeers [peer]] }
+        { s with pendingEvents := s.pendingEvents ++ [.blockPeers [peer]], blocked := s.blocked ++ [peer] }
       else
         { s with validatedPools := alPush s.validatedPools hash peer,
                  pendingEvents := s.pendingEvents ++ [.addPeers [peer]] }
     else
-      { s with pendingEvents := s.pendingEvents ++ [.blockPeers [peer]] }
+      { s with pendingEvents := s.pendingEvents ++ [.blockPeers [peer]], blocked := s.blocked ++ [peer] }
   | none => s     -- not reachable: `ensurePool` ran first
 
 /-- `add_peer_for_hash` -/
@@ -182,6 +185,7 @@ def validatePool (s : State) (hash height : Nat) : State :=
     let bad := rest.flatMap (·.2)
     let ev2 := if bad.isEmpty then [] else [Ev.blockPeers bad]
     { s with pendingEvents := s.pendingEvents ++ ev1 ++ ev2,
+             blocked := s.blocked ++ bad,
              validatedPools := alSet s.validatedPools hash validatedPeers,
              hashPools := alSet s.hashPools height (.validated hash) }
   | some (.validated _) => s      -- "Multiple validate_pool for the same height, should not happen"
@@ -258,7 +262,8 @@ def pollLoop : Nat → State → State × PollRes
         match (alGet s.hashPools height : Option Pool) with
         | some (Pool.candidates voted _) =>
           pollLoop fuel { s with hashPools := alRemove s.hashPools height,
-                                 pendingEvents := s.pendingEvents ++ [.blockPeers voted] }
+                                 pendingEvents := s.pendingEvents ++ [.blockPeers voted],
+                                 blocked := s.blocked ++ voted }
         | some (Pool.validated _) =>
           -- `if let Some(Candidates(..)) = self.hash_pools.remove(&height)`: the pool is removed regardless
           pollLoop fuel { s with hashPools := alRemove s.hashPools height }
@@ -278,7 +283,7 @@ structure Out where
 
 def step (s : State) : Event → State × Out
   | .notify p h ht => (notify s p h ht, {})
-  | .removePeer p => (removePeer s p, {})
+  | .removePeer p => ({ removePeer s p with removed := s.removed ++ [p] }, {})
   | .poll => let r := poll s; (r.1, { poll := some r.2 })
   | .store ht h => (store s ht h, {})
   | .taskTimeout ht => ({ s with queue := s.queue ++ [.timeout ht] }, {})
